@@ -65,9 +65,11 @@ func (p *warcfieldsParser) parseLine(line []byte, nv WarcFields, pos *position) 
 func (p *warcfieldsParser) readLine(r *bufio.Reader, pos *position) (line []byte, nextChar byte, err error) {
 	line, err = r.ReadBytes('\n')
 	if err != nil {
-		if err == io.EOF {
-			err = errEndOfHeaders
+		if err != io.EOF {
+			// The underlying reader failed. Reading again would return the same error forever.
+			return nil, 0, err
 		}
+		err = errEndOfHeaders
 		line = bytes.Trim(line, sphtcrlf)
 		return
 	}
@@ -81,7 +83,10 @@ func (p *warcfieldsParser) readLine(r *bufio.Reader, pos *position) (line []byte
 	line = bytes.Trim(line, sphtcrlf)
 
 	n, e := r.Peek(1)
-	if e == io.EOF {
+	if e != nil {
+		if e != io.EOF {
+			return nil, 0, e
+		}
 		nextChar = 0
 		return
 	}
@@ -110,6 +115,9 @@ func (p *warcfieldsParser) Parse(r *bufio.Reader, validation *Validation, pos *p
 						return nil, newSyntaxError("missing newline", pos)
 					}
 				}
+			} else if _, ok := err.(*SyntaxError); !ok {
+				// Not a syntax error: the underlying reader failed.
+				return nil, err
 			} else {
 				switch p.Options.errSyntax {
 				case ErrIgnore:
